@@ -18,9 +18,24 @@ const (
 	scQuery scope = iota
 	scObj
 	scNamed
+	scOther // type Other implements Named, member of union U
+	scUnion // union U = Obj | Other: no fields of its own, only fragments
 )
 
-func (s scope) typeName() string { return [...]string{"Query", "Obj", "Named"}[s] }
+func (s scope) typeName() string { return [...]string{"Query", "Obj", "Named", "Other", "U"}[s] }
+
+// type conditions (inline fragments, named fragments) that may be spread inside a selection set of the given scope
+func (s scope) spreadable() []scope {
+	switch s {
+	case scQuery:
+		return []scope{scQuery}
+	case scObj:
+		return []scope{scObj, scNamed, scUnion}
+	case scOther:
+		return []scope{scOther, scNamed, scUnion}
+	}
+	return []scope{scObj, scOther, scNamed, scUnion}
+}
 
 type item struct {
 	head []gen.Tok
@@ -71,7 +86,10 @@ type fieldSpec struct {
 
 var leafQuery = []fieldSpec{{name: "f"}, {name: "g", args: []string{"z"}}, {name: "b", args: []string{"x", "r"}}, {name: "li"}}
 var leafObj = append([]fieldSpec{{name: "nn"}}, leafQuery...)
-var compQuery = []fieldSpec{{name: "o", sub: scObj, comp: true}, {name: "l", sub: scObj, comp: true}, {name: "ll", sub: scObj, comp: true}, {name: "i", sub: scNamed, comp: true}}
+var compQuery = []fieldSpec{{name: "o", sub: scObj, comp: true}, {name: "l", sub: scObj, comp: true}, {name: "ll", sub: scObj, comp: true}, {name: "i", sub: scNamed, comp: true},
+	// abstract types inside lists (and outside): interface Named, union U
+	{name: "il", sub: scNamed, comp: true}, {name: "ill", sub: scNamed, comp: true}, {name: "iln", sub: scNamed, comp: true},
+	{name: "u", sub: scUnion, comp: true}, {name: "ul", sub: scUnion, comp: true}, {name: "ull", sub: scUnion, comp: true}}
 var compObj = append([]fieldSpec{{name: "no", sub: scObj, comp: true}}, compQuery...)
 
 func (g *qgen) useVar(name, typ string) gen.Tok {
@@ -120,6 +138,12 @@ func (g *qgen) field(sc scope, depth int, inFrag bool) *item {
 			specs = append(specs, compObj...)
 			specs = append(specs, compObj...)
 		}
+	case scOther:
+		specs = append(specs, leafQuery...)
+		if depth > 0 {
+			specs = append(specs, compQuery...)
+			specs = append(specs, compQuery...)
+		}
 	case scNamed:
 		specs = []fieldSpec{{name: "f"}}
 	}
@@ -167,13 +191,7 @@ func (g *qgen) field(sc scope, depth int, inFrag bool) *item {
 func (g *qgen) inline(sc scope, depth int, inFrag bool, mustType bool) *item {
 	it := &item{head: []gen.Tok{p("...")}}
 	inner := sc
-	var opts []scope
-	switch sc {
-	case scQuery:
-		opts = []scope{scQuery}
-	default:
-		opts = []scope{scObj, scNamed}
-	}
+	opts := sc.spreadable()
 	if g.r.Chance(2, 3) || mustType {
 		inner = opts[g.r.Intn(len(opts))]
 		it.head = append(it.head, nm("on"), nm(inner.typeName()))
@@ -184,13 +202,7 @@ func (g *qgen) inline(sc scope, depth int, inFrag bool, mustType bool) *item {
 }
 
 func (g *qgen) spread(sc scope, depth int) *item {
-	var want []scope
-	switch sc {
-	case scQuery:
-		want = []scope{scQuery}
-	default:
-		want = []scope{scObj, scNamed}
-	}
+	want := sc.spreadable()
 	ws := want[g.r.Intn(len(want))]
 	var fd *fragDef
 	for _, f := range g.frags {
@@ -219,6 +231,15 @@ func (g *qgen) selsetW(sc scope, depth int, inFrag bool, wrapped bool) *selset {
 	n := g.r.Range(1, 3)
 	for i := 0; i < n; i++ {
 		k := g.r.Intn(10)
+		if sc == scUnion {
+			// a union has no fields: only fragments (typed, or untyped = the union again)
+			if k < 3 && depth > 0 && !inFrag {
+				s.items = append(s.items, g.spread(sc, depth))
+			} else {
+				s.items = append(s.items, g.inline(sc, depth, inFrag, g.r.Chance(9, 10)))
+			}
+			continue
+		}
 		switch {
 		case k == 0 && depth > 0:
 			s.items = append(s.items, g.inline(sc, depth, inFrag, wrapped && avoidUntypedInlineUnderWrapped))
@@ -338,6 +359,9 @@ func (g *qgen) fault(kind string, sc scope, r *hx.Rng) (*item, []string, string)
 	}
 	if sc == scNamed && (kind == "missingSubselection" || kind == "missingRequiredArg" || kind == "duplicateArg") {
 		kind = "unknownField"
+	}
+	if sc == scUnion && kind != "unknownFragment" && kind != "unknownTypeCondition" {
+		kind = "unknownField" // a union has no fields to hang the other faults on
 	}
 	switch kind {
 	case "unknownArg":
